@@ -13,12 +13,13 @@ n_a == <<97>>  n_b == <<98>>  n_c == <<99>>  n_e == <<>>  n_1 == <<49>>  n_0 == 
 n_ee == <<233>>  n_emo == <<128512>>  n_sq == <<39>>  n_dq == <<34>>  n_abs == <<97, 92>>  n_anb == <<97, 10, 98>>
 n_and == <<97, 110, 100>>  n_sp == <<32>>  n_ab_ == <<97, 32, 98>>  n_tld == <<126>>  n_sl == <<47>>  n_true == <<116, 114, 117, 101>>
 n_t1 == <<126, 49>>  n_at1b == <<97, 126, 49, 98>>  n_t0 == <<126, 48>>  n_big == <<49, 56, 52, 52, 54, 55, 52, 52, 48, 55, 51, 55, 48, 57, 53, 53, 49, 54, 49, 54>>
+n_del == <<97, 127>>  n_aemo == <<97, 128512>>
 n_c1 == <<1>>  n_bs == <<92>>  n_x == <<120>>  n_y == <<121>>  n_k == <<107>>
 
 S(str) == Str(str)
 Ints(n) == Arr([i \in 1..n |-> IntV(i - 1)])
 
-SpecialNames == <<n_ee, n_emo, n_sq, n_dq, n_abs, n_anb, n_and, n_sp, n_ab_, n_tld, n_sl, n_true, n_c1, n_bs, n_e, n_1, n_t1, n_at1b, n_t0, n_big>>
+SpecialNames == <<n_ee, n_emo, n_sq, n_dq, n_abs, n_anb, n_and, n_sp, n_ab_, n_tld, n_sl, n_true, n_c1, n_bs, n_e, n_1, n_t1, n_at1b, n_t0, n_big, n_del, n_aemo>>
 
 DocSeq == <<
   Ints(0), Ints(1), Ints(2), Ints(3), Ints(4), Ints(5), Ints(6),
